@@ -203,7 +203,10 @@ func expectNext(tr *tokenReader, kinds ...tokenKind) ([]token, error) {
 }
 
 func optNewline(tr *tokenReader) {
-	tr.Next()
+	if !tr.Next() {
+		// nothing was read, so there is nothing to hand back
+		return
+	}
 	if tr.Token().kind != tokenKindNewline {
 		tr.UnNext()
 	}
@@ -612,11 +615,16 @@ func readUnion(tr *tokenReader) (Union, error) {
 	nextCommentTags := []Tag{}
 	nextDeprecatedMessage := ""
 	nextIsDeprecated := false
-	for tr.Token().kind != tokenKindCloseCurly {
+	for {
+		// every token of the body is looked at exactly once: the closing curly of a
+		// member is never mistaken for the union's, and the union's is never skipped
 		if !tr.Next() {
 			return union, readError(tr.nextToken, "union definition ended early")
 		}
 		tk := tr.Token()
+		if tk.kind == tokenKindCloseCurly {
+			break
+		}
 		switch tk.kind {
 		case tokenKindNewline:
 			nextCommentLines = []string{}
@@ -663,11 +671,10 @@ func readUnion(tr *tokenReader) (Union, error) {
 			nextCommentLines = []string{}
 			nextCommentTags = []Tag{}
 
-			// This is a close curly-- we must advance past it or the union
-			// will read it and believe it is complete
-			tr.Next()
+			// the member's close curly is the current token; its reader may have handed
+			// it back (UnNext) - it is consumed either way, and the loop moves past it
+			tr.keepNextToken = false
 			skipEndOfLineComments(tr)
-			optNewline(tr)
 
 		case tokenKindOpenSquare:
 			if nextIsDeprecated {
@@ -687,6 +694,10 @@ func readUnion(tr *tokenReader) (Union, error) {
 				nextCommentTags = append(nextCommentTags, tag)
 			}
 			nextCommentLines = append(nextCommentLines, cmt)
+		case tokenKindSemicolon:
+			// members may be terminated by a semicolon
+		default:
+			return union, readError(tk, "unexpected %v in union body", tk.kind)
 		}
 	}
 
